@@ -293,6 +293,40 @@ def rule_prec(crate, repo):
             out.ok("assoc:parse_binop:left-fold", f, pb["line"], "parse_binop matches operators in a loop and nests the accumulated expression as lhs")
         else:
             out.violation("assoc:parse_binop:left-fold", f, pb["line"], "parse_binop does not fold operators in a loop")
+    # ---- associativity per level, from the grammar the parser documents in its own module comment:
+    #   A ::= B ( op C ) *     iteration: operands are folded in a loop, left-associative — A must not call itself
+    #   A ::= … A …            recursion into A is part of the production (power, unary, logical_neg, condition)
+    grammar = {}
+    try:
+        with open(os.path.join(repo, f), encoding="utf-8") as src:
+            for line in src:
+                mm = re.match(r"^//!\s*([a-z_]+)\s*::=\s*(.*?)\s*$", line)
+                if mm:
+                    grammar[mm.group(1)] = mm.group(2)
+    except OSError:
+        grammar = {}
+    n_gram = 0
+    for nm in sorted(levels):
+        if nm not in depth or nm not in grammar:
+            continue
+        rhs = grammar[nm]
+        iterative = bool(re.search(r"\)\s*\*\s*$", rhs)) and not re.search(r"\b%s\b" % re.escape(nm), rhs)
+        if not iterative:
+            continue
+        n_gram += 1
+        body = fns[nm]["body"]
+        self_calls = [x for x in walk(body) if x.get("k") == "MethodCall" and (callee(x) or "") == PARSER + nm]
+        loops = [x for x in walk(body) if x.get("k") == "Loop"]
+        folds = levels[nm].binop or any(any(y.get("k") == "MethodCall" and (callee(y) or "").startswith(PARSER) for y in walk(l)) for l in loops)
+        key = "assoc:%s:left" % nm
+        if self_calls:
+            sf, sl = crate.loc(fns[nm], self_calls[0])
+            out.violation(key, sf, sl, "the parser documents `%s ::= %s` — an iteration, i.e. operands are combined from the left — but Parser::%s parses its right operand by calling itself: `a b c` is read as `a (b c)` (e.g. `2 3 °C` becomes 2 × (3 °C))" % (nm, rhs, nm))
+        elif folds:
+            out.ok(key, f, fns[nm]["line"], "documented as an iteration `%s`; operands are folded in a loop" % rhs)
+        else:
+            out.advisory(key, f, fns[nm]["line"], "documented as an iteration `%s`; no loop and no self-recursion found (not decided)" % rhs)
+    out.floor("iterative_levels", n_gram, 8)
     # ---- operands parsed at a LOOSER level must be bracketed: a level function may hand an operand to a shallower
     # level (primary -> expression inside parentheses, list/struct/argument/interpolation elements, the `if` and
     # `then` parts of a conditional) only when a closing token is matched after it; an unbracketed up-call lets the
